@@ -516,6 +516,7 @@ class Interp:
                     v = vcopy(v, pt)
                 new[p["did"]] = Box(v)
         new["this"] = this
+        new["__retref"] = str(fn.d.get("ret", "")).rstrip().endswith("&")
         try:
             for ini in fn.d.get("inits", []):
                 self.do_init(ini, this, new)
@@ -595,6 +596,8 @@ class Interp:
         elif k == "ReturnStmt":
             ch = n.get("ch")
             v = None
+            if ch and env.get("__retref") and _strip(ch[0]).get("lv"):
+                raise _Return(self.lv(ch[0], env))
             if ch:
                 v = self.ev(ch[0], env)
                 if not _is_copy_construct(ch[0]):
@@ -1216,6 +1219,13 @@ class Interp:
     e_CXXOperatorCallExpr = e_CallExpr
 
     def ev_call(self, n, env, want_ref=False):
+        r = self._ev_call(n, env, want_ref)
+        if not want_ref and isinstance(r, (Box, FieldRef, ElemRef, MapRef)) and str(n.get("t", "")) != "" and n.get("lv"):
+            # a call to a reference-returning function used as an rvalue
+            return r.get()
+        return r
+
+    def _ev_call(self, n, env, want_ref=False):
         k = n["k"]
         ch = n.get("ch", [])
         callee = n.get("callee")
@@ -1330,10 +1340,16 @@ class Interp:
                 return None
             if meth == "resize":
                 k = self.ev(args[0], env)
+                fill = None
+                if len(args) > 1 and args[1].get("k") != "CXXDefaultArgExpr":
+                    fill = self.ev(args[1], env)
+                if "valarray" in cname:
+                    recv.items[:] = []      # valarray::resize re-initialises every element
                 while len(recv.items) > k:
                     recv.items.pop()
                 while len(recv.items) < k:
-                    recv.items.append(self.default_elem(recv.elem))
+                    recv.items.append(copy.deepcopy(fill) if fill is not None else
+                                      (Fraction(0) if "valarray" in cname else self.default_elem(recv.elem)))
                 return None
             if meth == "reserve":
                 return None
@@ -1439,6 +1455,15 @@ class Interp:
                 r = ElemRef(b, i)
                 return r if want_ref else r.get()
             raise Unsupported("std operator[] on %r[%r]" % (b, i))
+        if op in ("*=", "+=", "-=", "/=") and "valarray" in cname:
+            tgt = self.lv(args[0], env).get()
+            rhs = self.ev(args[1], env)
+            if isinstance(tgt, Vec):
+                for i_ in range(len(tgt.items)):
+                    o_ = rhs.items[i_] if isinstance(rhs, Vec) else rhs
+                    tgt.items[i_] = self.arith(op[0], tgt.items[i_], o_, "double")
+                return tgt
+            raise Unsupported("valarray %s on %r" % (op, tgt))
         if op == "<<":
             s = self.lv(args[0], env).get() if _strip(args[0]).get("lv") else self.ev(args[0], env)
             if isinstance(s, StreamVal):
